@@ -148,7 +148,8 @@ func c01Exec(x *engine.Ctx, cc any) {
 	}
 }
 
-var c01HistoryOps = []string{"delete-artifact", "replace-by-key-only", "strip-certificate", "edit-subject", "strip-key", "change-key-algorithm"}
+var c01HistoryOps = []string{"delete-artifact", "replace-by-key-only", "strip-certificate", "edit-subject", "strip-key", "change-key-algorithm",
+	"key-replaced-by-request+edit-child", "strip-key+edit-child+changed-only-run", "strip-key+delete-child"}
 
 // c01History: the directory is not fresh - one entity's artifact or config was touched since the
 // last run. After the next successful default run every certificate must again verify under the
@@ -174,6 +175,7 @@ func c01History(x *engine.Ctx, c *c01Case) {
 		return
 	}
 	w := g.W
+	strat := drive.Default
 	cfg := d.Certs[c.Ent]
 	art := ArtifactPath(cfg.Path)
 	pf := refx509.SplitPem(w.Files[art].Data)
@@ -193,9 +195,31 @@ func c01History(x *engine.Ctx, c *c01Case) {
 		cfg.KeyAlg = "P-521"
 		w.Put(cfg.Path, cfg.YAML())
 		w.Remove(art)
+	case "key-replaced-by-request+edit-child", "strip-key+edit-child+changed-only-run", "strip-key+delete-child":
+		// an issuer that keeps its certificate but has no private key any more, while something below it must be signed
+		if c.Ent == 2 {
+			x.Outcome("history: leaf has no child")
+			return
+		}
+		nb := append([]byte("#HASH:"+*pf.HashLine+"\n"), refx509.EncodePem("CERTIFICATE", pf.CertDER)...)
+		if c01HistoryOps[c.Op] == "key-replaced-by-request+edit-child" {
+			k, _ := refx509.ParsePKCS8(pf.KeyDER)
+			nb = append(nb, refx509.EncodePem("CERTIFICATE REQUEST", refx509.BuildCSR(k, "req", nil))...)
+		}
+		w.PutAt(art, nb, w.Files[art].Tick) // same mtime: only the key is gone
+		child := d.Certs[c.Ent+1]
+		if c01HistoryOps[c.Op] == "strip-key+delete-child" {
+			w.Remove(ArtifactPath(child.Path))
+		} else {
+			child.Subject += " renamed"
+			w.Put(child.Path, child.YAML())
+		}
+		if c01HistoryOps[c.Op] == "strip-key+edit-child+changed-only-run" {
+			strat = drive.Changed
+		}
 	}
 	g2 := &GenResult{W: w, Before: w.Clone(), RunStart: g.RunStart}
-	g2.Res = drive.Run(w, drive.Default, nil)
+	g2.Res = drive.Run(w, strat, nil)
 	g2.RunEnd = g.RunEnd + 5
 	x.Nontrivial(fmt.Sprintf("history %d %d %v", c.Op, c.Ent, c.Profile))
 	if g2.Res.Panic != "" {
@@ -457,7 +481,7 @@ func init() {
 	register(&engine.Check{
 		ID:          "C01",
 		Level:       "exploration",
-		Rule:        "(a) every rooted forest on <=3 (quick) / <=4 (thorough) entities x 3 alias/directory layouts x with/without a profile adding subjectKeyIdentifier+authorityKeyIdentifier hash; (b) issuer key algorithm (14) x subject key algorithm (6 representatives quick / 14 thorough) x signature algorithm (8 + omitted) two-tier worlds with fixture keys, the 14 x 9 self-signed roots, and a three-tier chain per issuer kind x 9; (c) 36 histories on a settled 3-tier chain (delete artifact / replace by an old key-only file / strip certificate / edit subject / strip key / change key algorithm, on each entity, with and without key-id profile) followed by a default run, after which every certificate must verify under its issuer's current certificate; (d) issuer artifact origin {earlier gopki run, foreign certificate with PrintableString / UTF8String non-ASCII / UTF8String for a printable value / IA5String e-mail / multi-valued RDN / TeletexString}. Oracle per written certificate: signature verifies with the algorithm its signatureAlgorithm names under the SPKI of the issuer's current certificate file, issuer DN bytes = that certificate's subject DN bytes, hash key ids = SHA-1 of the respective key bits, child AKI = issuer SKI; misfit of algorithm and signing key => run fails and no certificate. non-trivial = distinct case executed",
+		Rule:        "(a) every rooted forest on <=3 (quick) / <=4 (thorough) entities x 3 alias/directory layouts x with/without a profile adding subjectKeyIdentifier+authorityKeyIdentifier hash; (b) issuer key algorithm (14) x subject key algorithm (6 representatives quick / 14 thorough) x signature algorithm (8 + omitted) two-tier worlds with fixture keys, the 14 x 9 self-signed roots, and a three-tier chain per issuer kind x 9; (c) 54 histories on a settled 3-tier chain (delete artifact / replace by an old key-only file / strip certificate / edit subject / strip key / change key algorithm / issuer key replaced by a request + child edited / issuer key stripped + child edited + generate-changed only / issuer key stripped + child artifact deleted, on each entity, with and without key-id profile) followed by a default run, after which every certificate must verify under its issuer's current certificate; (d) issuer artifact origin {earlier gopki run, foreign certificate with PrintableString / UTF8String non-ASCII / UTF8String for a printable value / IA5String e-mail / multi-valued RDN / TeletexString}. Oracle per written certificate: signature verifies with the algorithm its signatureAlgorithm names under the SPKI of the issuer's current certificate file, issuer DN bytes = that certificate's subject DN bytes, hash key ids = SHA-1 of the respective key bits, child AKI = issuer SKI; misfit of algorithm and signing key => run fails and no certificate. non-trivial = distinct case executed",
 		Bound:       map[string]string{"forest size": "quick<=3 thorough<=4"},
 		Assumptions: []string{"configurations with manipulations are C19's", "Go's crypto/ecdsa, crypto/rsa and the keybase brainpool curve parameters are trusted for verification"},
 		Budget:      budgets(quickBudget, thoroughBudget),
